@@ -403,11 +403,15 @@ func (t *TempoService) Search(ctx context.Context,
 }
 
 func decodeParentId(parentId []byte) ([]byte, error) {
-	if len(parentId) < 16 {
+	if len(parentId) == 0 {
 		return nil, nil
 	}
 	if len(parentId) > 16 {
 		return nil, fmt.Errorf("parent id is too big")
+	}
+	if len(parentId) < 16 {
+		// a Zipkin id may come without its leading zeros; the writer pads parent_id the same way
+		parentId = []byte(strings.Repeat("0", 16-len(parentId)) + string(parentId))
 	}
 	res := make([]byte, 8)
 	_, err := hex.Decode(res, parentId)
